@@ -96,6 +96,7 @@
 //! ```
 
 #![warn(missing_docs)]
+#![cfg_attr(feature = "verif-hooks", allow(missing_docs))]
 #![allow(
     clippy::suspicious_arithmetic_impl,
     clippy::suspicious_op_assign_impl,
@@ -121,6 +122,13 @@ pub use dynamic::Bvd;
 pub use fixed::{Bv128, Bv16, Bv192, Bv256, Bv32, Bv320, Bv384, Bv448, Bv512, Bv64, Bv8, Bvf};
 pub use iter::BitIterator;
 use utils::{IArray, IArrayMut};
+
+/// Verification hooks (feature `verif-hooks`, off by default): the crate-private helper traits.
+#[cfg(feature = "verif-hooks")]
+#[doc(hidden)]
+pub mod verif_hooks {
+    pub use crate::utils::{Constants, IArray, IArrayMut, Integer, StaticCast};
+}
 
 /// The endianness of an I/O operation.
 #[derive(Copy, Clone, PartialEq, Eq)]
